@@ -91,6 +91,12 @@ def run(ctx):
             pcfg = common.load_grammar(d)
         except Exception as e:
             continue
+        # the probabilities are those of the ruleset: what was loaded must be what the files say
+        import corr_pq
+        for v_ in corr_pq.oracle_base_vs_files(pcfg, spec, 'C16') + corr_pq.oracle_loaded_vs_files(pcfg, spec, {}):
+            v_['property'] = 'C16'
+            v_['witness'] = {'spec': spec}
+            viol.append(v_)
         pre = corr_expand.grammar_ops(pcfg, om) + sampler_ops(pcfg)
         ops += pre
         exp += ['ok'] * len(pre)
